@@ -132,6 +132,8 @@ class Frame:
         self.ret: set = set()
         self.loops: list[dict] = []
         self.yields: Ref | None = None
+        self.exits = 0  # return / break / continue statements interpreted so far
+        self.partial_exit = 0  # conditional exits met so far (a return / continue / break under an unknown condition)
 
 
 MUTATORS_ADD1 = {"append", "add", "appendleft"}
@@ -157,6 +159,12 @@ class Interp:
         self.node_vals: dict[int, frozenset] = {}
         self.tops: list[str] = []
         self.steps = 0
+        self.uncertain = 0  # > 0 while the statements being interpreted may not execute (unknown branch, loop body, after a conditional exit)
+        self.writes: set = set()  # (object cell key, field) written so far
+        self.stale: set = set()  # fields holding a value of an earlier call (see rules R6)
+        self.stale_reads: list = []
+        self.collectors: list = []  # (uncertainty level, fields definitely written) per open branch of an undecided `if`
+        self.scalar_calls: list = []  # (method name, provenance tags of the scalar receiver)
 
     # ------------------------------------------------------------------ heap
     def cell(self, ref: Ref):
@@ -200,10 +208,22 @@ class Interp:
     def set_field(self, ref: Ref, name: str, v: frozenset, strong: bool) -> None:
         c = self.cells[ref.key]
         old = c.fields.get(name, E)
+        definite = strong
+        strong = strong and self.uncertain == 0
+        self.writes.add((ref.key, name))
+        if definite:
+            self.definite_write((ref.key, name))
         new = v if strong else old | v
         if new != old:
             c.fields[name] = new
             self.version += 1
+
+    def definite_write(self, fld) -> None:
+        """A field assignment that executes whenever the innermost open branch does."""
+        if self.uncertain == 0:
+            self.stale.discard(fld)
+        elif self.collectors and self.collectors[-1][0] == self.uncertain:
+            self.collectors[-1][1].add(fld)
 
     def store_entry(self, ref: Ref, k: frozenset, v: frozenset) -> None:
         c = self.cells[ref.key]
@@ -478,11 +498,20 @@ class Interp:
 
     # ------------------------------------------------------------------ statements
     def exec_block(self, stmts: list[ast.stmt], env: dict | None, fr: Frame) -> dict | None:
-        for s in stmts:
-            if env is None:
-                return None
-            env = self.exec_stmt(s, env, fr)
-        return env
+        raised = 0
+        try:
+            for s in stmts:
+                if env is None:
+                    return None
+                before = fr.partial_exit
+                env = self.exec_stmt(s, env, fr)
+                if fr.partial_exit != before:
+                    # some path through `s` left the function / loop: what follows is not executed on every path
+                    self.uncertain += 1
+                    raised += 1
+            return env
+        finally:
+            self.uncertain -= raised
 
     @staticmethod
     def join_env(a: dict | None, b: dict | None) -> dict | None:
@@ -517,6 +546,7 @@ class Interp:
         if isinstance(s, ast.Return):
             v = self.ev(s.value, env, fr) if s.value is not None else NONE_V
             fr.ret |= v
+            fr.exits += 1
             return None
         if isinstance(s, ast.Raise):
             return None
@@ -530,18 +560,42 @@ class Interp:
                 return self.exec_block(s.body, env, fr)
             if b is False:
                 return self.exec_block(s.orelse, env, fr)
-            a = self.exec_block(s.body, dict(env), fr)
-            c = self.exec_block(s.orelse, dict(env), fr)
+            self.uncertain += 1
+            exits = fr.exits
+            wa: set = set()
+            wc: set = set()
+            try:
+                self.collectors.append((self.uncertain, wa))
+                try:
+                    a = self.exec_block(s.body, dict(env), fr)
+                finally:
+                    self.collectors.pop()
+                self.collectors.append((self.uncertain, wc))
+                try:
+                    c = self.exec_block(s.orelse, dict(env), fr)
+                finally:
+                    self.collectors.pop()
+            finally:
+                self.uncertain -= 1
+            if (a is None) != (c is None) and fr.exits != exits:
+                fr.partial_exit += 1
+            elif fr.exits == exits:
+                # no return / break / continue inside: a branch that ended did so by raising
+                both = (wa & wc) if (a is not None and c is not None) else (wc if a is None else wa)
+                for fld in both:
+                    self.definite_write(fld)
             return self.join_env(a, c)
         if isinstance(s, (ast.For, ast.AsyncFor)):
             return self.exec_for(s, env, fr)
         if isinstance(s, ast.While):
             return self.exec_while(s, env, fr)
         if isinstance(s, ast.Break):
+            fr.exits += 1
             if fr.loops:
                 fr.loops[-1]["break"] = self.join_env(fr.loops[-1]["break"], env)
             return None
         if isinstance(s, ast.Continue):
+            fr.exits += 1
             if fr.loops:
                 fr.loops[-1]["cont"] = self.join_env(fr.loops[-1]["cont"], env)
             return None
@@ -561,7 +615,11 @@ class Interp:
                 henv = self.join_env(dict(pre), a)
                 if h.name:
                     henv[h.name] = V(Opaque("exception"))
-                out = self.join_env(out, self.exec_block(h.body, henv, fr))
+                self.uncertain += 1
+                try:
+                    out = self.join_env(out, self.exec_block(h.body, henv, fr))
+                finally:
+                    self.uncertain -= 1
             if s.finalbody:
                 out = self.exec_block(s.finalbody, out if out is not None else dict(pre), fr) if out is not None else None
             return out
@@ -631,9 +689,11 @@ class Interp:
                 self.assign(s.target, cur, benv, fr)
                 fr.loops.append({"break": None, "cont": None})
                 self.active.append(e)
+                self.uncertain += 1
                 try:
                     o = self.exec_block(s.body, benv, fr)
                 finally:
+                    self.uncertain -= 1
                     self.active.pop()
                     lp = fr.loops.pop()
                 out = self.join_env(out, self.join_env(o, lp["cont"]))
@@ -654,9 +714,11 @@ class Interp:
             if self.as_bool(tv) is False:
                 break
             fr.loops.append({"break": None, "cont": None})
+            self.uncertain += 1
             try:
                 out = self.exec_block(s.body, dict(head), fr)
             finally:
+                self.uncertain -= 1
                 lp = fr.loops.pop()
             out = self.join_env(out, lp["cont"])
             brk = self.join_env(brk, lp["break"])
@@ -1155,6 +1217,8 @@ class Interp:
                 c = self.cell(sh)
                 if name in c.fields:
                     v = c.fields[name]
+                    if (sh.key, name) in self.stale:
+                        self.stale_reads.append((self.site(fr, node), self.where(fr, node), name))
                     if c.ci is not None and c.ci.is_dataclass:
                         tag = f"fld:{c.ci.name}.{name}"
                         v = self.map_scalars(v, lambda s, tag=tag: replace(s, srcs=s.srcs | {tag}), (id(node), fr.inv, "fld"))
@@ -1396,6 +1460,8 @@ class Interp:
         if isinstance(sh, (Sc, Const)):
             if isinstance(sh, Const) and sh.value is None:
                 return E
+            if isinstance(sh, Sc) and sh.srcs:
+                self.scalar_calls.append((name, sh.srcs))
             if name == "join" and args:
                 el = self.elems(args[0])
                 return self.derive([V(sh) if isinstance(sh, Sc) else E, el], fr, call, check=False, agg=True)
